@@ -361,6 +361,8 @@ impl<T: HashAlgorithm> Nomt<T> {
         }
 
         let _write_guard = self.access_lock.write();
+        #[cfg(nomt_verif)]
+        let _ = crate::verif_hook::step("guard_write");
 
         let Some(rollback) = self.store.rollback() else {
             anyhow::bail!("rollback: not enabled");
@@ -368,6 +370,8 @@ impl<T: HashAlgorithm> Nomt<T> {
         let Some(traceback) = rollback.truncate(n)? else {
             anyhow::bail!("rollback: not enough logged for rolling back");
         };
+        #[cfg(nomt_verif)]
+        let _ = crate::verif_hook::step("rb_truncate");
 
         // Begin a new session. We do not allow rollback for this operation because that would
         // interfere with the rollback log: if another rollback were to be issued, it must rollback
@@ -387,6 +391,8 @@ impl<T: HashAlgorithm> Nomt<T> {
             actuals.push((key, value));
         }
 
+        #[cfg(nomt_verif)]
+        crate::verif_hook::step("session_finish")?;
         sess.finish(actuals)?.commit(&self)?;
 
         Ok(())
@@ -721,13 +727,21 @@ impl FinishedSession {
     /// committed.
     pub fn commit<T: HashAlgorithm>(self, nomt: &Nomt<T>) -> Result<(), anyhow::Error> {
         let _write_guard = self.take_global_guard.then(|| nomt.access_lock.write());
+        #[cfg(nomt_verif)]
+        if self.take_global_guard {
+            let _ = crate::verif_hook::step("guard_write");
+        }
 
+        #[cfg(nomt_verif)]
+        let _ = crate::verif_hook::step("poison_check");
         if nomt.store.is_poisoned() {
             anyhow::bail!("Store is poisoned due to prior error");
         }
 
         {
             let mut shared = nomt.shared.lock();
+            #[cfg(nomt_verif)]
+            let _ = crate::verif_hook::step("root_check");
             if shared.root != self.prev_root {
                 anyhow::bail!(
                     "Changeset no longer valid (expected previous root {:?}, got {:?})",
@@ -737,6 +751,8 @@ impl FinishedSession {
             }
             shared.root = Root(self.merkle_output.root);
             shared.last_commit_marker = None;
+            #[cfg(nomt_verif)]
+            let _ = crate::verif_hook::step("root_set");
         }
 
         if let Some(rollback_delta) = self.rollback_delta {
@@ -745,6 +761,8 @@ impl FinishedSession {
             if let Err(e) = rollback.commit(rollback_delta) {
                 // The changeset was accepted but cannot be carried through, and the rollback log
                 // may be left half-written: treat it like any other failed commit step.
+                #[cfg(nomt_verif)]
+                let _ = crate::verif_hook::step("poison");
                 nomt.store.poison();
                 return Err(e);
             }
@@ -774,10 +792,14 @@ impl FinishedSession {
             .take_global_guard
             .then(|| nomt.access_lock.try_write())
             .flatten();
+        #[cfg(nomt_verif)]
+        let _ = crate::verif_hook::step("guard_try");
         if write_guard.is_none() {
             return Ok(Some(self));
         }
 
+        #[cfg(nomt_verif)]
+        let _ = crate::verif_hook::step("poison_check");
         if nomt.store.is_poisoned() {
             anyhow::bail!("Store is poisoned due to prior error");
         }
@@ -787,6 +809,8 @@ impl FinishedSession {
         // root cannot change between this check and the update below.
         {
             let shared = nomt.shared.lock();
+            #[cfg(nomt_verif)]
+            let _ = crate::verif_hook::step("root_check");
             if shared.root != self.prev_root {
                 anyhow::bail!(
                     "Changeset no longer valid (expected previous root {:?}, got {:?})",
@@ -803,6 +827,8 @@ impl FinishedSession {
                 Ok(maybe_delta) => maybe_delta,
                 Err(e) => {
                     // See `commit`: a failed append leaves the log in an unknown state.
+                    #[cfg(nomt_verif)]
+                    let _ = crate::verif_hook::step("poison");
                     nomt.store.poison();
                     return Err(e);
                 }
@@ -817,6 +843,8 @@ impl FinishedSession {
             let mut shared = nomt.shared.lock();
             shared.root = Root(self.merkle_output.root);
             shared.last_commit_marker = None;
+            #[cfg(nomt_verif)]
+            let _ = crate::verif_hook::step("root_set");
         }
 
         nomt.store.commit(
@@ -840,6 +868,8 @@ impl Overlay {
     /// overlay has an uncommitted parent. An overlay may be invalidated by a competing commit or
     /// rollback.
     pub fn commit<T: HashAlgorithm>(self, nomt: &Nomt<T>) -> anyhow::Result<()> {
+        #[cfg(nomt_verif)]
+        let _ = crate::verif_hook::step("marker_check");
         if !self.parent_matches_marker(nomt.shared.lock().last_commit_marker.as_ref()) {
             anyhow::bail!("Overlay parent not committed");
         }
@@ -858,13 +888,19 @@ impl Overlay {
         let rollback_delta = self.rollback_delta().map(|delta| delta.clone());
 
         let _write_guard = nomt.access_lock.write();
+        #[cfg(nomt_verif)]
+        let _ = crate::verif_hook::step("guard_write");
 
+        #[cfg(nomt_verif)]
+        let _ = crate::verif_hook::step("poison_check");
         if nomt.store.is_poisoned() {
             anyhow::bail!("Store is poisoned due to prior error");
         }
 
         {
             let mut shared = nomt.shared.lock();
+            #[cfg(nomt_verif)]
+            let _ = crate::verif_hook::step("root_check");
             if shared.root != self.prev_root() {
                 anyhow::bail!(
                     "Changeset no longer valid (expected previous root {:?}, got {:?})",
@@ -875,8 +911,12 @@ impl Overlay {
             // Only an overlay which is actually being committed may be marked as such: a rejected
             // overlay must not make its descendants look like they have a committed parent.
             let marker = self.mark_committed();
+            #[cfg(nomt_verif)]
+            let _ = crate::verif_hook::step("mark_committed");
             shared.root = root;
             shared.last_commit_marker = Some(marker);
+            #[cfg(nomt_verif)]
+            let _ = crate::verif_hook::step("root_set");
         }
 
         if let Some(rollback_delta) = rollback_delta {
@@ -885,6 +925,8 @@ impl Overlay {
             if let Err(e) = rollback.commit(rollback_delta) {
                 // The changeset was accepted but cannot be carried through, and the rollback log
                 // may be left half-written: treat it like any other failed commit step.
+                #[cfg(nomt_verif)]
+                let _ = crate::verif_hook::step("poison");
                 nomt.store.poison();
                 return Err(e);
             }
@@ -905,6 +947,8 @@ impl Overlay {
         self,
         nomt: &Nomt<T>,
     ) -> anyhow::Result<Option<Self>> {
+        #[cfg(nomt_verif)]
+        let _ = crate::verif_hook::step("marker_check");
         if !self.parent_matches_marker(nomt.shared.lock().last_commit_marker.as_ref()) {
             anyhow::bail!("Overlay parent not committed");
         }
@@ -923,16 +967,22 @@ impl Overlay {
         let rollback_delta = self.rollback_delta().map(|delta| delta.clone());
 
         let write_guard = nomt.access_lock.try_write();
+        #[cfg(nomt_verif)]
+        let _ = crate::verif_hook::step("guard_try");
         if write_guard.is_none() {
             return Ok(Some(self));
         }
 
+        #[cfg(nomt_verif)]
+        let _ = crate::verif_hook::step("poison_check");
         if nomt.store.is_poisoned() {
             anyhow::bail!("Store is poisoned due to prior error");
         }
 
         {
             let mut shared = nomt.shared.lock();
+            #[cfg(nomt_verif)]
+            let _ = crate::verif_hook::step("root_check");
             if shared.root != self.prev_root() {
                 anyhow::bail!(
                     "Changeset no longer valid (expected previous root {:?}, got {:?})",
@@ -942,8 +992,12 @@ impl Overlay {
             }
             // See `commit`: mark as committed only once the changeset has been accepted.
             let marker = self.mark_committed();
+            #[cfg(nomt_verif)]
+            let _ = crate::verif_hook::step("mark_committed");
             shared.root = root;
             shared.last_commit_marker = Some(marker);
+            #[cfg(nomt_verif)]
+            let _ = crate::verif_hook::step("root_set");
         }
 
         if let Some(rollback_delta) = rollback_delta {
@@ -952,6 +1006,8 @@ impl Overlay {
             if let Err(e) = rollback.commit(rollback_delta) {
                 // The changeset was accepted but cannot be carried through, and the rollback log
                 // may be left half-written: treat it like any other failed commit step.
+                #[cfg(nomt_verif)]
+                let _ = crate::verif_hook::step("poison");
                 nomt.store.poison();
                 return Err(e);
             }
